@@ -164,9 +164,9 @@ func (f *Forwarder) serve(cli net.Conn) {
 	cli.Close()
 	srv.Close()
 	l.closeOnce.Do(func() { close(l.closed) })
-	// keep the address mapping a little: hook events of the handler's exit
-	// still refer to it
-	time.AfterFunc(3*time.Second, func() { f.bySrvAddr.Delete(sk) })
+	// the address mapping is kept for the life of the process: hook events of
+	// the handler's exit still refer to it (ephemeral ports are not reused while
+	// the socket lingers; a reuse would be overwritten by Store above)
 }
 
 // Kill closes both sides of the link (used at the end of a scenario).
